@@ -42,16 +42,18 @@ func (c *Ctx) boolSummaryOf(fn *ssa.Function) *boolSummary {
 			continue
 		}
 		rv := c.resolve(p.Ret.Results[0], p.Env)
+		// nested helper calls are expanded here, in the helper's own frame, where their
+		// arguments are still available as values
 		if b, ok := constBoolVal(rv); ok {
 			if b {
-				trueSets = append(trueSets, p.Atoms)
+				trueSets = append(trueSets, c.expand(p.Atoms, p.Env))
 			} else {
-				falseSets = append(falseSets, p.Atoms)
+				falseSets = append(falseSets, c.expand(p.Atoms, p.Env))
 			}
 			continue
 		}
-		trueSets = append(trueSets, append(append([]Atom(nil), p.Atoms...), c.atoms(rv, true, p.Env)...))
-		falseSets = append(falseSets, append(append([]Atom(nil), p.Atoms...), c.atoms(rv, false, p.Env)...))
+		trueSets = append(trueSets, c.expand(append(append([]Atom(nil), p.Atoms...), c.atoms(rv, true, p.Env)...), p.Env))
+		falseSets = append(falseSets, c.expand(append(append([]Atom(nil), p.Atoms...), c.atoms(rv, false, p.Env)...), p.Env))
 	}
 	s.True = commonAtoms(trueSets)
 	s.False = commonAtoms(falseSets)
